@@ -11,6 +11,7 @@ from fgutils.utils import add_implicit_hydrogens
 from fgutils.parse import parse
 
 ID = "C12"
+REPEAT_PROBE = True   # engine: repeat 1 call in 5 after editing its first result in place (purity / no shared state)
 PROPS = "Props/C12.v"
 USES_GEN = ["tables"]
 MODEL_FILES = ["Gen/Tables.v", "Spec/TablesRef.v", "Model/Hydrogens.v", "Spec/HydrogensSpec.v", "Spec/HydrogensCheck.v"]
